@@ -135,6 +135,9 @@ def run(repo, tier) -> Result:
     check_resume("C14", res, repo.method("hexital.core.indicator", "Indicator", "_find_calc_index"), "self.candles", "membership")
     check_calculate_index("C14", res, repo)
     check_rebind("C14", res, repo)
+    from ..driver import check_append_order
+
+    check_append_order("C14", res, repo)
     res.universe = {"max_helper_depth": need}
     res.rule("R-PURGE", floor=10)
     return res
